@@ -31,7 +31,8 @@ for _pid in PENDING:
 # then audited with `#print axioms` under its own name, not only through the theorems that use it.
 EXTRA_MODULES = {
     "C05": ["Proofs.C05Render", "Proofs.E2ERun", "Proofs.C19E2E"],
-    "C07": ["Proofs.C07", "Proofs.C07Lines", "Proofs.C07Source", "Proofs.C05", "Proofs.C07First", "Proofs.RenderTrace", "Proofs.TraceLemmas"],
+    "C07": ["Proofs.C07", "Proofs.C07Lines", "Proofs.C07Source", "Proofs.C05", "Proofs.C07First", "Proofs.RenderTrace", "Proofs.TraceLemmas",
+            "Proofs.TraceExact", "Proofs.C07Located", "Proofs.C07LocatedLemmas", "Proofs.TraceFin", "Proofs.SrcCompileLinesInc", "Proofs.IncLines"],
     "C08": ["Proofs.C08", "Proofs.C08Source", "Proofs.ExprLexemes", "Proofs.ExprShowParse", "Proofs.ExprRoundTrip"],
     "C10": ["Proofs.C10", "Proofs.C10Source", "Proofs.SrcRelRender", "Proofs.SrcRelInclude", "Proofs.SrcShiftSource", "Proofs.C19E2E"],
     "C11": ["Proofs.C11", "Proofs.C11Source", "Proofs.SrcLoop", "Proofs.Budget"],
